@@ -139,7 +139,7 @@ CHECKS = {
     "C02": {
         "level": "exploration",
         "technique": "runtime monitoring: invariant monitor (parent links, inverse height/hash maps, callback shadow chain) probed after every step of bounded-exhaustive and random hostile message sequences driven directly into the real handlers and block processor",
-        "level_text": "Every sequence up to depth 3 (thorough 5) and thousands of random length-30 sequences over 26 hostile inputs from the trusted peer (header lists of every shape, every block of a two-branch tree requested or not, a corrupted body, unknown headers, block-processor steps, three start blocks) are fed to the real message dispatcher; after every step the monitor walks the stored chain (parent links, height<->hash inverse, tip) and the HandleHeaders callbacks of both handlers (contiguous heights, parent = block announced one below). The same probe runs after every scheduling step of the well-behaved-peer scenarios. Exploration: the message sequence space is unbounded.",
+        "level_text": "Every sequence up to depth 3 (thorough 4) and thousands of random length-30 sequences over 26 hostile inputs from the trusted peer (header lists of every shape, every block of a two-branch tree requested or not, a corrupted body, unknown headers, block-processor steps, three start blocks) are fed to the real message dispatcher; after every step the monitor walks the stored chain (parent links, height<->hash inverse, tip) and the HandleHeaders callbacks of both handlers (contiguous heights, parent = block announced one below). The same probe runs after every scheduling step of the well-behaved-peer scenarios. Exploration: the message sequence space is unbounded.",
         "level_note": "Trusted: the probe reads through the repository's public query methods at quiescent points of a single-goroutine drive; the harness re-issues the block-processor loop body as one step.",
         "runs": [
             {"pkg": "internal/spynode", "test": "TestVerif_C02"},
